@@ -159,8 +159,12 @@ def run(ctx):
             params = sim.mixed_params(rng, min(levels), max(levels))
         sy, _T = sim.make_functions(params)
         inp = {"truth": tr.describe(), "zeta_step": zstep, "parameters": params}
-        r1, text1 = sim.simulate_cli(ctx, "rise", w["db"], params, False)
-        r2, text2 = sim.simulate_cli(ctx, "rise", w["db"], params, True)
+        # (a preliminary calibration against the rise curve has no transmissivity yet: the rise simulation needs only the
+        # specific yield section of the file)
+        file_params = params if rng.random() < 0.6 else {"specific_yield": params["specific_yield"]}
+        inp["sections_in_parameter_file"] = sorted(file_params)
+        r1, text1 = sim.simulate_cli(ctx, "rise", w["db"], file_params, False)
+        r2, text2 = sim.simulate_cli(ctx, "rise", w["db"], file_params, True)
         P.cleanup(w)
         ctx.case(("c17-cli", tr.describe(), str(params)), len(levels) >= 3)
         if r1[0] != "ok" or r2[0] != "ok":
